@@ -167,6 +167,9 @@ pub fn natural_order(rng: &mut Rng, lg_k: u8, c_max: u64) -> Vec<u32> {
     while expected(t_hi) < target {
         t_hi *= 2.0;
     }
+    while expected(t_hi / 2.0) >= target {
+        t_hi /= 2.0;
+    }
     let mut ev: Vec<(f64, u32)> = Vec::with_capacity(target as usize + 1024);
     for c in 0..64u32 {
         let rate = (0.5f64).powi(c as i32 + 1);
